@@ -385,12 +385,36 @@ Proof.
 Qed.
 
 (* the event bits *)
-Lemma ev_bits_spec mask :
-  0 <= mask ->
-  ev_bits mask =
-  (if Z.eqb (Z.land mask 6) 0 then 0 else UV_CHANGE) +
-  (if Z.eqb (Z.land mask (Z.lnot 6)) 0 then 0 else UV_RENAME).
-Proof. intros _. reflexivity. Qed.
+Lemma land_lor_nonzero m a b : Z.land m (Z.lor a b) <> 0 <-> Z.land m a <> 0 \/ Z.land m b <> 0.
+Proof.
+  rewrite Z.land_lor_distr_r, Z.lor_eq_0_iff.
+  destruct (Z.eq_dec (Z.land m a) 0), (Z.eq_dec (Z.land m b) 0); tauto.
+Qed.
+
+Theorem ev_bits_spec : forall mask,
+  let change := Z.land mask IN_ATTRIB <> 0 \/ Z.land mask IN_MODIFY <> 0 in
+  let rename := Z.land mask (Z.lnot (Z.lor (Z.lor IN_ATTRIB IN_MODIFY) IN_ISDIR)) <> 0 in
+  (change -> rename -> ev_bits mask = UV_CHANGE + UV_RENAME) /\
+  (change -> ~ rename -> ev_bits mask = UV_CHANGE) /\
+  (~ change -> rename -> ev_bits mask = UV_RENAME) /\
+  (~ change -> ~ rename -> ev_bits mask = 0).
+Proof.
+  intros mask change rename. unfold ev_bits.
+  assert (C : Z.land mask (Z.lor IN_ATTRIB IN_MODIFY) <> 0 <-> change) by apply land_lor_nonzero.
+  destruct (Z.eqb_spec (Z.land mask (Z.lor IN_ATTRIB IN_MODIFY)) 0) as [E1|E1];
+  destruct (Z.eqb_spec (Z.land mask (Z.lnot (Z.lor (Z.lor IN_ATTRIB IN_MODIFY) IN_ISDIR))) 0) as [E2|E2];
+    unfold rename; repeat split; intros; try reflexivity; try tauto.
+Qed.
+
+(* chmod of a watched directory (IN_ATTRIB|IN_ISDIR) is UV_CHANGE only; create / delete / move of a
+   subdirectory is UV_RENAME; the failing input of the repaired finding, on the old mapping *)
+Lemma ev_bits_examples :
+  ev_bits (Z.lor IN_ATTRIB IN_ISDIR) = UV_CHANGE /\ ev_bits (Z.lor IN_MODIFY IN_ISDIR) = UV_CHANGE /\
+  ev_bits (Z.lor 256 IN_ISDIR) = UV_RENAME /\ ev_bits (Z.lor 512 IN_ISDIR) = UV_RENAME /\
+  ev_bits (Z.lor 64 IN_ISDIR) = UV_RENAME /\ ev_bits (Z.lor 128 IN_ISDIR) = UV_RENAME /\
+  ev_bits IN_ATTRIB = UV_CHANGE /\ ev_bits 1024 = UV_RENAME /\ ev_bits 32768 = UV_RENAME /\
+  ev_bits_old (Z.lor IN_ATTRIB IN_ISDIR) = UV_CHANGE + UV_RENAME.
+Proof. vm_compute. repeat split; reflexivity. Qed.
 
 Theorem event_reaches_all_quiet :
   forall s wd mask nm w cnt,
